@@ -39,7 +39,8 @@ def main():
     else:
         # fixed path: the cargo target dir of this path is reused across seeded runs (run them one at a time);
         # remove it at the end with vp/clean_scratch.py /tmp/seeded-wt
-        repo = "/tmp/seeded-wt"
+        slot = sys.argv[sys.argv.index("--slot") + 1] if "--slot" in sys.argv else ""
+        repo = "/tmp/seeded-wt" + slot
         sh(["git", "-C", "/repo", "worktree", "remove", "--force", repo])
         for _try in range(20):
             rc, out = sh(["git", "-C", "/repo", "worktree", "add", "--detach", repo, "HEAD"])
